@@ -22,7 +22,7 @@ CHECKS = {
  "C02": ("model_checking", "bounded-exhaustive exploration of item sequences (valid and invalid items) on compiled derived receivers; reference interpreter predicts the multiset of error leaves",
          "odometer", "same exploration as C01; Ok iff no mistake; the multiset of flattened leaves (message, location path) and len() must equal the interpreter's",
          "reference interpreter written from the documented semantics; expected message texts come from darling's own constructors; bounds: sequences <= 3 (quick) / 4 (thorough) over per-receiver alphabets, 583 (quick) receivers; leaf order not compared", "DESIGN.md §4 C02"),
- "C03": ("model_checking", "the C02 exploration with real column spans (proc-macro2 span-locations) + stateright BFS over with_span/at/multiple/flatten histories",
+ "C03": ("model_checking", "the C02 exploration with real column spans (proc-macro2 span-locations) + stateright BFS over with_span/at/multiple/flatten histories + exhaustive position sweep of faulty members over built-in collection / scalar targets",
          "odometer+stateright", "every expected leaf's explicit span must lie inside the offending item/value (containment), unspanned only for root absences (then the diagnostic text carries the path), compile_error! tokens sit at the leaf spans; algebra: with_span never overwrites, flatten/diagnostics give each leaf its own or nearest enclosing collection's span",
          "reference interpreter written from the documented semantics; expected message texts come from darling's own constructors; bounds: sequences <= 3 (quick) / 4 (thorough) over per-receiver alphabets, 583 (quick) receivers", "DESIGN.md §4 C03"),
  "C07": ("exploration", "exhaustive enumeration under catch_unwind: the C02 sequence exploration, a hostile-item sweep over every corpus receiver, and every built-in conversion target x a menu of meta items",
